@@ -195,7 +195,7 @@ def tlc(module, cfg, env=None, workers=8, timeout=1800, simulate=None, depth=Non
         m = re.match(r"^The depth of the complete state graph search is (\d+)", line)
         if m:
             res.depth = int(m.group(1))
-        m = re.match(r"^<(\w+) line \d+, col \d+ to line \d+, col \d+ of module \w+>: (\d+):(\d+)", line)
+        m = re.match(r"^<(\w+) line \d+, col \d+ to line \d+, col \d+ of module \w+(?: \([\d ]+\))?>: (\d+):(\d+)", line)
         if m:
             res.coverage[m.group(1)] = res.coverage.get(m.group(1), 0) + int(m.group(3))
         if line.startswith("Error:"):
